@@ -3,6 +3,7 @@ import Psa.Namespace
 import Psa.Eval
 import Psa.Generated.Tables
 import Psa.Generated.Facts
+import Psa.StdEval
 /-! Driver side of the `admit` op: decode configuration / request / world, run `validate`, encode the observables. -/
 namespace PSA.IO
 open Lean PSA
@@ -54,6 +55,8 @@ def synEval (salt : Nat) : Ev := fun lv p =>
     [⟨true, [], []⟩]
 
 def realEval : Ev := fun lv p => evalPodModel Generated.tables false lv p.pod
+/-- the Standard's own evaluator (published tables, hand-written version thresholds): the oracle of C01 -/
+def stdEvalEv : Ev := fun lv p => stdEval lv.level lv.version p.pod
 
 def world (j : Json) : R (World Ev) := do
   let nsj := fldD j "ns"
@@ -66,6 +69,7 @@ def world (j : Json) : R (World Ev) := do
   let evj := fldD j "ev"
   let ev : Ev := match (fldD evj "kind").getStr? with
     | .ok "syn" => synEval ((fldD evj "salt").getNat?.toOption.getD 0)
+    | .ok "std" => stdEvalEv
     | _ => realEval
   return { getNs := getNs, listPods := listPods, expireAfter := ← optOf natOf (fldD j "expireAfter"),
            remaining := ← optOf intOf (fldD j "remaining"), ev := ev }
